@@ -91,6 +91,8 @@ def run(ctx: Ctx) -> None:
     ctx.instance("C02.3/exchange-override", "decoded exchange instructions never carry IMemOperand operands", n, 30)
     guard(ctx, py)
     fusion_shape(ctx, py)
+    from .c01 import window_unaltered
+    window_unaltered(ctx, py, rule="C02.2/window", hooks=("SC62015.get_instruction_text",))
     ctx.extra["exhaustive"] = True
     ctx.extra["rejected_cases"] = dict(collections.Counter(c.status for c in base if c.status != "ok"))
 
